@@ -83,6 +83,7 @@ pub fn tree_parts(prop: &str, std: &Std) -> Vec<Part> {
         "C09" => {
             parts.push(Part::new(base(), usize::MAX, usize::MAX, sweep.clone()));
             parts.push(Part::new(pools::ws_pool(sb.clone()), 8000, usize::MAX, sweep2.clone()));
+            parts.push(Part::new(pools::eol_pool(sb.clone()), usize::MAX, usize::MAX, sweep2.clone()));
             parts.push(Part::new(pools::splice_pool(sb.clone(), std.frags.clone()), 3000, 72_678, sweep2.clone()));
             parts.push(Part::new(pools::comment_pool(sb.clone()), 3000, 60_000, sweep2.clone()));
             gens(&mut parts, 1200, 12_000, &sweep2);
